@@ -133,13 +133,20 @@ def u1_u5(ctx, F):
                   found=hir.fmt(played, 80))
     # U5: failing paths
     acc = None
-    for n, anc in hir.walk(body):
-        if n.get("k") == "If" and any(c is n["cond"] for c in [x for call, _ in plays for x in enclosing_conditions(call, fn["hir"])]):
-            acc = n
+    rej = None
+    from .common import enclosing_conditions_ex
+    for call, _ in plays:
+        for cnode, ifn, form in enclosing_conditions_ex(call, fn["hir"]):
+            if ifn.get("k") != "If":
+                continue
+            # the branch taken when the acceptance condition fails
+            other = {"then": ifn.get("else"), "else": ifn.get("then"), "exit": ifn.get("then")}.get(form)
+            if any(x.get("k") == "Binary" and x.get("op") == "==" for d in dependence_nodes(cnode, fn["hir"]) for x in [d]):
+                acc, rej = ifn, other
     ok = False
     found = None
-    if acc is not None and acc.get("else") is not None:
-        els = acc["else"]
+    if acc is not None and rej is not None:
+        els = rej
         has_ret = any(x.get("k") == "Ret" for x, _ in hir.walk(els))
         has_play = any(x.get("k") == "MethodCall" and x["name"] in ("push", "push_history") for x, _ in hir.walk(els))
         ok = has_ret and not has_play
@@ -193,7 +200,8 @@ def _is_input_token(t, fn, sym):
 def _element_of(cmp_node, cond, checked, fn, sym):
     """The uci_notation receiver is the parameter of a closure passed to an iterator adaptor over a checked buffer."""
     names = {b[0] for b in checked}
-    for n, anc in hir.walk(cond):
+    # the adaptor call may sit in the condition itself or in the initialiser of a local the condition reads (`let ok = ..any(..)`)
+    for n, anc in hir.walk(fn["hir"]["body"]):
         if n.get("k") == "MethodCall" and n["name"] in ("any", "find", "position", "filter", "all"):
             recv = hir.fmt(sym(n["recv"]), 200)
             over_checked = any(("iter(%s)" % nm) in recv.replace("<[T]>::iter", "iter").replace("<impl [T]>::iter", "iter") or
